@@ -16,7 +16,7 @@ and the names fixed positionally (the `'!'`-marked keys of the defaults dict);
 `none` = the partial always fails (`TypeError` at inspection time) -/
 def sigMarked (f : Func Val) : Option (List (Val × Bool) × List (Val × Val) × List Val) :=
   let argNames := names f.pos
-  let fixed := argNames.zip f.pArgs
+  let fixed := (if f.bound then argNames.drop 1 else argNames).zip f.pArgs   -- (a bound method's instance is not among the parameters the partial fills)
   if fixed.any (fun p => has f.pKwds p.1) then none else
   let defaults0 := update (update (defaultsOf f.pos) (defaultsOf f.kwonly)) f.pKwds
   let explicit := (argNames.filter (fun n => !(has fixed n))).map (fun n => (n, has f.pKwds n))
